@@ -19,6 +19,13 @@
 //!              1 hwc hwf 4                                         InputWrongType
 //!              1 hwc hwf 5                                         other error
 //!              9                                                   panic
+//!   execv <0|1 program> <pdl> <input>
+//!       the same run observed at the level of `Value` (buffer bytes, bit offset, type): input is `-` or
+//!       `<padtype>:<pad bits|->:<type>:<padded bits|->`; the input Value is the right component of a Value of
+//!       type padtype * type decoded from the concatenated bits (so it sits at bit offset |padtype| of a shared
+//!       buffer; padtype `u` = no product, offset 0)
+//!       -> as exec, with V for Ok:  0 hwc hwf <in off> <n> <in bytes> <out off> <m> <out bytes> <type = target type> <type = unit>
+//!          (in off / n = 0 0 when input is `-`); the other verdicts as for exec
 //!   limits <0|1 program> <pdl>    the same up to and including capframes (exec is not called)
 //!   sw/tw: bit widths of the root arrow; ec/ef/cost: root NodeBounds; capcells = 8 * data.len(),
 //!   capframes = read.capacity(); hwc/hwf: high-water marks of the verif-hooks feature.
@@ -33,6 +40,22 @@ pub fn run(t: &[&str]) -> String {
         Some(v) => join(&v),
         None => "9".to_string(),
     }
+}
+
+/// raw buffer bytes and raw bit offset, parsed from the Debug form of Value
+fn raw_of(v: &Value) -> (Vec<u128>, u128) {
+    let d = format!("{:?}", v);
+    let i = d.rfind("raw_value: [").expect("raw_value field") + "raw_value: [".len();
+    let j = i + d[i..].find(']').expect("]");
+    let bytes: Vec<u128> = d[i..j]
+        .split(',')
+        .map(|s| s.trim())
+        .filter(|s| !s.is_empty())
+        .map(|s| s.parse().expect("byte"))
+        .collect();
+    let k = d.rfind("raw_bit_offset: ").expect("raw_bit_offset field") + "raw_bit_offset: ".len();
+    let off: String = d[k..].chars().take_while(|c| c.is_ascii_digit()).collect();
+    (bytes, off.parse().expect("offset"))
 }
 
 fn limit_which(s: &str) -> u128 {
@@ -95,8 +118,9 @@ fn run_inner(t: &[&str]) -> Vec<u128> {
             .iter()
             .map(|j| format!("{}", j.cost()).parse::<u128>().expect("cost"))
             .collect(),
-        "exec" | "limits" => {
+        "exec" | "limits" | "execv" => {
             let only_limits = t[0] == "limits";
+            let value_level = t[0] == "execv";
             let program = t[1] == "1";
             let specs = parse_prog(t[2]);
             let redeem = match redeem(&specs, program) {
@@ -138,8 +162,28 @@ fn run_inner(t: &[&str]) -> Vec<u128> {
             out.push(1);
             let env = CoreEnv::new();
             let inp = t[3].to_string();
+            let mut in_raw: (Vec<u128>, u128) = (vec![], 0);
             let res = guarded(|| {
-                if inp != "-" {
+                if inp != "-" && value_level {
+                    let f: Vec<&str> = inp.split(':').collect();
+                    assert!(f.len() == 4, "input syntax");
+                    let padty = parse_ty(f[0]);
+                    let ty = parse_ty(f[2]);
+                    let mut bits = bits_of_str(f[1]);
+                    bits.extend(bits_of_str(f[3]));
+                    let bytes = pack_bits(&bits);
+                    let mut it = BitIter::from(bytes.into_iter());
+                    let v = if f[0] == "u" {
+                        Value::from_padded_bits(&mut it, &ty).expect("input bits")
+                    } else {
+                        let pty = types::Final::product(padty, ty);
+                        let whole = Value::from_padded_bits(&mut it, &pty).expect("input bits");
+                        let (_, r) = whole.as_product().expect("product");
+                        r.to_value()
+                    };
+                    in_raw = raw_of(&v);
+                    mac.input(&v)?;
+                } else if inp != "-" {
                     let (tys, bits) = inp.split_once(':').expect("input syntax");
                     let ty = parse_ty(tys);
                     let bits = bits_of_str(bits);
@@ -153,6 +197,18 @@ fn run_inner(t: &[&str]) -> Vec<u128> {
             let ((hwc, hwf), _) = mac.verif_high_water();
             match res {
                 None => out.push(9),
+                Some(Ok(v)) if value_level => {
+                    out.extend([0, hwc as u128, hwf as u128]);
+                    out.push(in_raw.1);
+                    out.push(in_raw.0.len() as u128);
+                    out.extend(in_raw.0.iter());
+                    let (bytes, off) = raw_of(&v);
+                    out.push(off);
+                    out.push(bytes.len() as u128);
+                    out.extend(bytes);
+                    out.push(v.is_of_type(&redeem.arrow().target) as u128);
+                    out.push(v.is_of_type(&types::Final::unit()) as u128);
+                }
                 Some(Ok(v)) => {
                     out.extend([0, hwc as u128, hwf as u128]);
                     let c = compact_bits(&v);
